@@ -26,6 +26,57 @@ PROPS = {
                        "listings are sampled; the verdict is 'no counterexample in that space', not a proof for all listings."),
         "level_note": "Trusts the reference expansion in kit/verifref (written from the statement) and net/netip; the address source is injected through the plugin's exported Addrs field as Prepare would.",
     },
+    "C14": {
+        "pkg": "internal/plugin",
+        "files": ["plugin/zz_verif_common_test.go", "plugin/zz_verif_C13_test.go", "plugin/zz_verif_C14_test.go"],
+        "run": "TestVerif_C14",
+        "level": "exploration",
+        "quick": {"shards": 4},
+        "thorough": {"shards": 16},
+        "rule": ("address lists: every sequence of length <=3 (quick) / <=4 (thorough) over a 21-entry pool covering "
+                 "class (ULA/GUA/link-local) x stability source (none, each flag, EUI-64) x exclusion flag, plus IPv4; "
+                 "rapid-generated lists up to 30 with static server lists; oracle = total-order specification "
+                 "(minimum of (not stable, class rank, address) over eligible addresses) + permutation invariance + "
+                 "no-eligible-address/source-error => failure. Non-trivial: at least two eligible candidates of different rank."),
+        "assumptions": [STAGED, "an automatic pick equal to a static server is counted as unspecified"],
+        "technique": "bounded-exhaustive enumeration + rapid property-based testing against a total-order specification; permutation metamorphic relation",
+        "level_text": "Exhaustive over short listings from a pool covering every ranking class, random beyond; counterexample search, not proof.",
+        "level_note": "Trusts verifref.BestRDNSS (written from the statement and reference.toml) and net/netip; address source injected through RDNSS.Addrs.",
+    },
+    "C15": {
+        "pkg": "internal/plugin",
+        "files": ["plugin/zz_verif_common_test.go", "plugin/zz_verif_C13_test.go", "plugin/zz_verif_C15_test.go"],
+        "run": "TestVerif_C15",
+        "level": "exploration",
+        "quick": {"shards": 4},
+        "thorough": {"shards": 16},
+        "rule": ("route dumps: every sequence of length <=3 (quick) / <=4 (thorough) over a 13-entry pool with nesting at "
+                 "equal and different base addresses, /128s, ::/0, IPv4 and duplicates; rapid-generated dumps up to 24 "
+                 "from a small prefix tree; oracle = maximal-element set specification + independent no-duplicate / "
+                 "no-overlap post-conditions + permutation invariance. Non-trivial: the dump contains a nested pair or a duplicate."),
+        "assumptions": [STAGED, "route dumps contain canonical (masked) destinations, as the kernel's table does"],
+        "technique": "bounded-exhaustive enumeration + rapid property-based testing against a set specification; permutation metamorphic relation",
+        "level_text": "Exhaustive over short dumps from a pool built around the nesting cases, random beyond; counterexample search, not proof.",
+        "level_note": "Trusts verifref.ExpandRoutes and net/netip; route source injected through Route.Routes.",
+    },
+    "C16": {
+        "pkg": "internal/plugin",
+        "files": ["plugin/zz_verif_common_test.go", "plugin/zz_verif_C13_test.go", "plugin/zz_verif_C16_test.go"],
+        "run": "TestVerif_C16",
+        "level": "exploration",
+        "quick": {"shards": 4},
+        "thorough": {"shards": 16},
+        "bubble": True,
+        "rule": ("(epoch, valid, preferred<=valid, route lifetime) incl. sub-second and multi-year values x non-decreasing "
+                 "sequences of 2..60 clock readings placed at deadline-1ns/deadline/deadline+1ns, before the epoch, repeated; "
+                 "injected clock, and (1 in 5) the real time.Now with monotonic reading inside a synctest bubble; static and "
+                 "wildcard stanzas; oracle = closed formula + monotonicity/non-negativity/preferred<=valid + constant twins. "
+                 "Non-trivial: the sequence crosses at least one deadline."),
+        "assumptions": [STAGED, BUBBLE],
+        "technique": "rapid property-based testing of clock-reading histories against a closed formula and history invariants",
+        "level_text": "Random histories biased to the deadlines; counterexample search, not proof.",
+        "level_note": "Trusts verifref.Remaining and package time; clock injected through the plugins' TimeNow field (or the bubble's fake clock).",
+    },
 }
 
 NOT_APPLICABLE = {}
